@@ -311,6 +311,33 @@ def gen_layout(rng, env, dim_mode=None):
          "end": (rand_fr(rng, 0x92, b""), b""), "trailer": trailer}
     return L, exp
 
+def corpus_short_layout():
+    """witness of the former defect XLSB-3 (notes/AUDIT2.md, repro xlsb_4): one row written the way
+    SheetJS writes it — a full cell record, then a short record for every cell that directly follows
+    another one: A1 = 1.5 (BrtCellReal), B1 = 2.5 (BrtShortReal), C1 = 3 (BrtShortRk), D1 shared string
+    (BrtShortIsst), E1 inline string (BrtShortSt), F1 TRUE (BrtShortBool), G1 #DIV/0! (BrtShortError),
+    H1 blank (BrtShortBlank), I1 = 9 (BrtShortReal); a second row: a formula cell, then shorts.
+    Before the fix next_cell returned A1 (and A2) only."""
+    env = {"fmts": [0, 1], "xf_ids": [0, 14], "customs": [], "d1904": False, "strings": ["shared"]}
+    vals = [("real", f64_bits(2.5)), ("rk", "i", 3, False), ("isst", 0), ("st", "inline"), ("bool", True),
+            ("err", 0x07), ("blank",), ("real", f64_bits(9.0))]
+    def mk(it):
+        it["fr"] = min_fr(G.item_id(it), G.item_body(it))
+        return it
+    items = [mk({"k": "row", "row": 0, "tail": struct.pack("<IHBBBI", 0, 300, 0, 0, 0, 0)}),
+             mk({"k": "cell", "col": 0, "style": 0, "fl": 0, "v": ("real", f64_bits(1.5)), "tail": b""})]
+    items += [mk({"k": "short", "style": 0, "fl": 0, "v": v, "tail": b""}) for v in vals]
+    items += [mk({"k": "row", "row": 1, "tail": b""}),
+              mk({"k": "cell", "col": 2, "style": 0, "fl": 0, "v": ("fnum", f64_bits(4.0)), "tail": FMLA_TAIL}),
+              mk({"k": "short", "style": 1, "fl": 0, "v": ("real", f64_bits(45000.0)), "tail": b""}),
+              mk({"k": "short", "style": 1, "fl": 1, "v": ("rk", "i", 45001, False), "tail": b""})]
+    dim = struct.pack("<IIII", 0, 1, 0, 8)
+    L = {"pre1": [("R", {"fr": (True, 0), "id": 0x81, "body": b""})],
+         "dim": {"fr": (True, 0), "d": (0, 0, 1, 8), "tail": b""}, "pre2": [],
+         "begin": ((True, 0), b""), "items": items, "end": ((True, 0), b""),
+         "trailer": frame((True, 0), 0x82, b"")}
+    return env, L, G.expected_cells(L, env)
+
 def gen_sst(rng, env):
     """sharedStrings.bin realising env['strings'] (None: part absent when there are no strings)"""
     if not env["strings"] and rng.random() < 0.5:
@@ -433,6 +460,14 @@ def run_files(ctx, n_files, tag, hdr_share=0.0):
         sst_bytes, sst_desc = gen_sst(rng, env)
         nsheets = rng.choice([1, 1, 1, 2])
         sheets, descr = [], []
+        if k == 0:
+            # corpus: the witness of the former defect XLSB-3 (short cell records)
+            env, L, exp = corpus_short_layout()
+            sst_bytes, sst_desc = gen_sst(rng, env)
+            nsheets = 0
+            sheets.append(("S0", G.enc_layout(L)))
+            descr.append((L, exp))
+            ctx.count("corpus:short-cell-run")
         for si in range(nsheets):
             L, exp = gen_layout(rng, env)
             sheets.append(("S%d" % si, G.enc_layout(L)))
